@@ -31,7 +31,7 @@ theorem callFn_re_match (env : Env) (cx : Cx) (a b : Value N) :
   rfl
 
 theorem callFn_deref (env : Env) (cx : Cx) (l : List Ref) :
-    callFn (N := N) env cx "deref" [.ns l] = derefFn env l := by
+    callFn (N := N) env cx "deref" [.ns l] = derefAny env l := by
   simp [callFn, callYang]
 
 theorem callFn_current (env : Env) (cx : Cx) : callFn (N := N) env cx "current" [] = .ok (.ns [env.cur]) := by
